@@ -61,8 +61,6 @@ impl ProcedureCache {
     /// # Errors
     /// Returns an error if:
     /// - A procedure with the same ID is already in the cache.
-    /// - A procedure with the same MAST root but conflicting procedure metadata exists in the
-    ///   cache.
     pub fn insert(
         &mut self,
         proc: NamedProcedure,
@@ -73,23 +71,22 @@ impl ProcedureCache {
             return Err(AssemblyError::duplicate_proc_id(&id.unwrap()));
         }
 
-        // If the entry is `Vacant` then insert the Procedure. If the procedure with the same MAST
-        // was inserted previously, make sure it doesn't conflict with the new procedure.
+        // If the entry is `Vacant` then insert the Procedure. A procedure with the same MAST root
+        // may have been inserted previously; it may declare a different number of locals (e.g., a
+        // procedure which consists of a single `exec` of a procedure with locals has the same
+        // MAST as the executed procedure but no locals of its own): the MAST, which includes the
+        // updates of the free memory pointer, is the same code in either case.
         match self.procedures.entry(proc.mast_root()) {
             Entry::Occupied(mut cached_proc_entry) => {
                 let cached_proc = cached_proc_entry.get_mut();
-                if proc.num_locals() != cached_proc.num_locals() {
-                    Err(AssemblyError::conflicting_num_locals(proc.name()))
-                } else {
-                    // procedures with the same MAST root may still reference different sets of
-                    // procedures (e.g., a root put on the stack via `procref` vs. the same root
-                    // pushed as literals); the cached procedure must cover all of them
-                    cached_proc.extend_callset(proc.callset());
-                    if let Some(id) = id {
-                        self.proc_id_map.insert(id, proc.mast_root());
-                    }
-                    Ok(())
+                // procedures with the same MAST root may still reference different sets of
+                // procedures (e.g., a root put on the stack via `procref` vs. the same root
+                // pushed as literals); the cached procedure must cover all of them
+                cached_proc.extend_callset(proc.callset());
+                if let Some(id) = id {
+                    self.proc_id_map.insert(id, proc.mast_root());
                 }
+                Ok(())
             }
             Entry::Vacant(entry) => {
                 if let Some(id) = id {
